@@ -129,7 +129,9 @@ pub fn install_quiet_panic_hook() {
         } else {
             "<non-string panic>".to_string()
         };
-        LAST_PANIC.with(|p| *p.borrow_mut() = Some(format!("{} @ {}", msg, loc)));
+        // host errors carry a long diagnostic event log after the first line: keep the headline
+        let head: String = msg.lines().next().unwrap_or("").chars().take(300).collect();
+        LAST_PANIC.with(|p| *p.borrow_mut() = Some(format!("{} @ {}", head, loc)));
     }));
 }
 
